@@ -138,3 +138,15 @@ M("receive-waits-when-nonblocking", ["C05"], XCM,
 M("btcp-accept-blocking-fd", ["C05"], BTCP, "ut_accept(server_bts->fd, NULL, NULL, SOCK_NONBLOCK)", "ut_accept(server_bts->fd, NULL, NULL, 0)")
 M("ut-established-waits", ["C05"], UTIL, "    UT_PROTECT_ERRNO(poll(&pfd, 1, 0));\n\n    if (pfd.revents & POLLOUT || pfd.revents & POLLERR)", "    UT_PROTECT_ERRNO(poll(&pfd, 1, 10));\n\n    if (pfd.revents & POLLOUT || pfd.revents & POLLERR)")
 M("tconnect-blocking-socket", ["C05"], TCONN, "return socket(family, SOCK_STREAM | SOCK_NONBLOCK, IPPROTO_TCP);", "return socket(family, SOCK_STREAM, IPPROTO_TCP);")
+
+# ---- C13
+DNSC = "libxcm/tp/dns/xcm_dns_cares.c"
+M("tconnect-skips-an-address", ["C13"], TCONN, "    for (idx = track->ip_idx + 1; idx < track->num_remote_ips; idx++) {", "    for (idx = track->ip_idx + 1 + (track->ip_idx == 1); idx < track->num_remote_ips; idx++) {")
+M("tconnect-single-tries-all", ["C13"], TCONN, "\t\t\t\t\t   remote_ips, 1, remote_port);", "\t\t\t\t\t   remote_ips, num_remote_ips, remote_port);")
+M("tconnect-first-track-errno-wins", ["C13"], TCONN, "\telse if (rc < 0 && errno == EAGAIN)\n\t    in_progress = true;\n\telse\n\t    fatal_errno = errno;", "\telse if (rc < 0 && errno == EAGAIN)\n\t    in_progress = true;\n\telse {\n\t    fatal_errno = errno;\n\t    break;\n\t}")
+M("dns-overall-timeout-ignored", ["C13"], DNSC, "    if (query->state != query_state_successful &&\n\ttimer_mgr_has_expired(query->timer_mgr, query->overall_timer_id)) {", "    if (0 && query->state != query_state_successful &&\n\ttimer_mgr_has_expired(query->timer_mgr, query->overall_timer_id)) {")
+M("tconnect-timeout-no-abort", ["C13"], TCONN, "\ttimer_mgr_ack(track->timer_mgr, &track->timer_id);\n\ttrack_abort_connect(track);\n\ttrack_connect_next(track);\n\n\treturn;", "\ttimer_mgr_ack(track->timer_mgr, &track->timer_id);\n\ttrack_connect_next(track);\n\n\treturn;")
+M("tconnect-timeout-reports-refused", ["C13"], TCONN, "\ttrack->badness_reason = ETIMEDOUT;", "\ttrack->badness_reason = ECONNREFUSED;")
+M("happy-no-ipv4-delay", ["C13"], TCONN, "\thas_ipv6 ? HAPPY_EYEBALLS_INITIAL_IPV4_DELAY : 0;", "\t0;")
+M("tconnect-local-addr-only-first", ["C13"], TCONN, "    if (track->has_local_ip && !*fd_bound) {", "    if (track->has_local_ip && !*fd_bound && track->ip_idx == 0) {")
+M("dns-result-truncated-to-8", ["C13"], "libxcm/tp/tcp/xcm_tp_btcp.c", "    int rc = xcm_dns_query_result(bts->conn.query, remote_ips,\n\t\t\t\t  XCM_DNS_MAX_RESULT_SIZE);", "    int rc = xcm_dns_query_result(bts->conn.query, remote_ips,\n\t\t\t\t  8);")
